@@ -408,3 +408,70 @@ package lang
 //@   ensures imp(result1 == nil, len(result) >= 1)
 //@   ensures imp(result1 == nil, forall(k, 0, len(result), !streq(result[k].Name, "") && !streq(result[k].DataType, "")))
 //@   ensures imp(result1 == nil, forall(k, 1, len(result), imp(result[k-1].Optional, result[k].Optional)))
+
+// ---- C31: the verdict of one unit test (runTest) -------------------------------------------------------------
+// For a plan without Pre/Post/Stdout/Stderr blocks: runTest returns true exactly when the function ran,
+// both streams could be read, and every assertion of the plan holds of (exit number, stdout, stderr,
+// their data types). Each data-format assertion is judged by the matching helper on the matching stream.
+//@ func utAddReport [C31] trusted
+//@   modifies results.results
+//@ func runFunction [C31] trusted
+//@   modifies fork.IsMethod
+//@ func testIsArray [C31] trusted
+//@   modifies nothing
+//@ func testIsMap [C31] trusted
+//@   modifies nothing
+//@ func testIsGreaterThanOrEqualTo [C31] trusted
+//@   modifies nothing
+
+//@ func runTest$1 [C31]
+//@   check none
+//@   modifies results.results
+
+//@ func runTest [C31]
+//@   check none
+//@   scope functional
+//@   at call (*Process).Fork#* modifies nothing
+//@   at call tMsg*#* modifies nothing
+//@   at call fmt.Println#* modifies nothing
+//@   at call (*Parameters).DefineParsed#* modifies nothing
+//@   at call (lang/stdio.Io).SetDataType#* modifies nothing
+//@   at call (lang/stdio.Io).Write#* modifies nothing
+//@   at call (lang/stdio.Io).ReadAll#* modifies nothing
+//@   at call (lang/stdio.Io).GetDataType#* modifies nothing
+//@   at call testIsArray#1 assert plan.StdoutIsArray && arg0 == stdout && arg1 == stdoutType
+//@   at call testIsMap#1 assert plan.StdoutIsMap && arg0 == stdout && arg1 == stdoutType
+//@   at call testIsGreaterThanOrEqualTo#1 assert plan.StdoutGreaterThan > 0 && arg0 == stdout && arg1 == stdoutType && arg3 == plan.StdoutGreaterThan
+//@   at call testIsArray#2 assert plan.StderrIsArray && arg0 == stderr && arg1 == stderrType
+//@   at call testIsMap#2 assert plan.StderrIsMap && arg0 == stderr && arg1 == stderrType
+//@   at call runFunction#1 assert arg0 == function
+//@   ensures imp(old(len(plan.PreBlock) == 0 && len(plan.PostBlock) == 0 && plan.StdoutBlock == "" && plan.StderrBlock == "") && result, testForkErr == nil && testExitNum == plan.ExitNum)
+//@   ensures imp(old(len(plan.PreBlock) == 0 && len(plan.PostBlock) == 0 && plan.StdoutBlock == "" && plan.StderrBlock == "") && result && plan.StdoutIsArray, statusǂ1 == TestPassed)
+//@   ensures imp(old(len(plan.PreBlock) == 0 && len(plan.PostBlock) == 0 && plan.StdoutBlock == "" && plan.StderrBlock == "") && result && plan.StdoutIsMap, statusǂ2 == TestPassed)
+//@   ensures imp(old(len(plan.PreBlock) == 0 && len(plan.PostBlock) == 0 && plan.StdoutBlock == "" && plan.StderrBlock == "") && result && plan.StdoutGreaterThan > 0, statusǂ3 == TestPassed)
+//@   ensures imp(old(len(plan.PreBlock) == 0 && len(plan.PostBlock) == 0 && plan.StdoutBlock == "" && plan.StderrBlock == "") && result && plan.StderrIsArray, statusǂ4 == TestPassed)
+//@   ensures imp(old(len(plan.PreBlock) == 0 && len(plan.PostBlock) == 0 && plan.StdoutBlock == "" && plan.StderrBlock == "") && result && plan.StderrIsMap, statusǂ5 == TestPassed)
+//@   ensures imp(old(len(plan.PreBlock) == 0 && len(plan.PostBlock) == 0 && plan.StdoutBlock == "" && plan.StderrBlock == "") && result && plan.StdoutMatch != "", bytesof(plan.StdoutMatch, stdout))
+//@   ensures imp(old(len(plan.PreBlock) == 0 && len(plan.PostBlock) == 0 && plan.StdoutBlock == "" && plan.StderrBlock == "") && result && (plan.StderrMatch != "" || plan.StderrRegex == ""), bytesof(plan.StderrMatch, stderr))
+//@   ensures imp(old(len(plan.PreBlock) == 0 && len(plan.PostBlock) == 0 && plan.StdoutBlock == "" && plan.StderrBlock == "") && result && plan.StdoutRegex != "", $rxOk(plan.StdoutRegex) && $rxMatch(plan.StdoutRegex, stdout))
+//@   ensures imp(old(len(plan.PreBlock) == 0 && len(plan.PostBlock) == 0 && plan.StdoutBlock == "" && plan.StderrBlock == "") && result && plan.StderrRegex != "", $rxOk(plan.StderrRegex) && $rxMatch(plan.StderrRegex, stderr))
+//@   ensures imp(old(len(plan.PreBlock) == 0 && len(plan.PostBlock) == 0 && plan.StdoutBlock == "" && plan.StderrBlock == "") && result && plan.StdoutType != "", stdoutType == plan.StdoutType)
+//@   ensures imp(old(len(plan.PreBlock) == 0 && len(plan.PostBlock) == 0 && plan.StdoutBlock == "" && plan.StderrBlock == "") && result && plan.StderrType != "", stderrType == plan.StderrType)
+// ... and conversely: if the function ran, both streams were read and every assertion holds, the verdict is true.
+//@   ensures imp(old(len(plan.PreBlock) == 0 && len(plan.PostBlock) == 0 && plan.StdoutBlock == "" && plan.StderrBlock == "") && testForkErr == nil && errǂ2 == nil && called("(lang/stdio.Io).GetDataType") && testExitNum == plan.ExitNum && imp(plan.StdoutIsArray, statusǂ1 == TestPassed) && imp(plan.StdoutIsMap, statusǂ2 == TestPassed) && imp(plan.StdoutGreaterThan > 0, statusǂ3 == TestPassed) && imp(plan.StderrIsArray, statusǂ4 == TestPassed) && imp(plan.StderrIsMap, statusǂ5 == TestPassed) && imp(plan.StdoutMatch != "", bytesof(plan.StdoutMatch, stdout)) && imp(plan.StderrMatch != "" || plan.StderrRegex == "", bytesof(plan.StderrMatch, stderr)) && imp(plan.StdoutRegex != "", $rxOk(plan.StdoutRegex) && $rxMatch(plan.StdoutRegex, stdout)) && imp(plan.StderrRegex != "", $rxOk(plan.StderrRegex) && $rxMatch(plan.StderrRegex, stderr)) && imp(plan.StdoutType != "", stdoutType == plan.StdoutType) && imp(plan.StderrType != "", stderrType == plan.StderrType), result)
+
+// UnitTests.Run: the verdict is the conjunction of the verdicts of the plans registered for the function
+// (every plan for "*"), false if there is none, and the exit number is 0 exactly for a true verdict.
+//@ func (*UnitTests).Run [C31]
+//@   check none
+//@   scope functional
+//@   requires ut != nil && p != nil
+//@   at call runTest#* modifies utCopy[$idx].TestPlan.StdinType
+//@   at call (*Tests).WriteResults#* modifies nothing
+//@   at call runTest#1 assert function == "*" || utCopy[$idx].Function == function
+//@   at call runTest#1 assert arg1 == utCopy[$idx].FileRef && arg2 == utCopy[$idx].TestPlan && arg3 == utCopy[$idx].Function
+//@   loop 1 invariant imp(!exists, passed)
+//@   loop 1 step imp(passed, old(passed)) && imp(!old(exists) && exists || old(exists), exists)
+//@   loop 1 step imp(!(function == "*" || utCopy[$idx].Function == function), passed == old(passed) && exists == old(exists))
+//@   loop 1 step imp(function == "*" || utCopy[$idx].Function == function, exists)
+//@   ensures imp(result, exists) && p.ExitNum == ite(result, 0, 1)
